@@ -49,6 +49,7 @@ class Gen:
         self.ukind = {}      # user fd id -> harness kind
         self.peer = {}       # sockpair ends
         self.polled = set()
+        self.inherited = set()   # handles handed to a child with UV_INHERIT_STREAM (their socket became blocking)
         self.query()
 
     def query(self):
@@ -137,7 +138,8 @@ class Gen:
             # only handles whose socket (if any) libuv created itself and has not bound/connected yet: the return
             # code of bind(2) on adopted / accepted / connected sockets depends on kernel state the model does not track
             hs = [i for i in self.live("tcp") + self.live("pipe") + self.live("udp")
-                  if not self.hs[i]["readable"] and not self.hs[i]["connected"] and not self.hs[i]["bound"]]
+                  if not self.hs[i]["readable"] and not self.hs[i]["connected"] and not self.hs[i]["bound"]
+                  and i not in self.inherited]
             if hs:
                 h = rng.choice(hs); k = self.hs[h]["kind"]
                 var = rng.choice(["ok", "ok", "bad", "same"])
@@ -157,7 +159,7 @@ class Gen:
             hs = [i for i in self.live("tcp") + self.live("pipe") if not self.hs[i]["connected"] and not self.hs[i]["readable"]
                   # uv_listen on a server that still holds an un-accepted connection re-arms POLLIN and trips
                   # assert(stream->accepted_fd == -1) in uv__server_io (reported separately): not generated
-                  and not self.hs[i]["listening"]]
+                  and not self.hs[i]["listening"] and i not in self.inherited]
             if hs:
                 h = rng.choice(hs)
                 self.emit(*self.maybe_fail([("socket", 1, [24])]), f"listen h{h}")
@@ -275,10 +277,15 @@ class Gen:
                     free = [p for p in pipes if not self.has_io(p)]
                     return f"h{rng.choice(free if rng.below(6) else pipes)}"
                 if rng.below(2):          # UV_INHERIT_STREAM: a stream handle, with or without a descriptor (-> UV_EINVAL)
-                    st = self.live("tcp") + self.live("pipe") + self.live("tty")
+                    # not a (future) listener: the child's uv__nonblock_fcntl(fd, 0) clears O_NONBLOCK on the shared open
+                    # file description, and uv__emfile_trick's accept loop then blocks for ever (noted lead, not C15)
+                    st = [h for h in self.live("tcp") + self.live("pipe") + self.live("tty")
+                          if not self.hs[h]["listening"] and not self.hs[h]["bound"]]
                     if st:
                         withfd = [h for h in st if self.has_io(h)]
-                        return f"s{rng.choice(withfd if withfd and rng.below(4) else st)}"
+                        pick = rng.choice(withfd if withfd and rng.below(4) else st)
+                        self.inherited.add(pick)
+                        return f"s{pick}"
                 us = [f for f in self.users() if f not in self.polled and self.ukind.get(f) != "file"]
                 return f"f{rng.choice(us)}" if us else "i"
             c0, c2 = cont(), cont()
@@ -327,7 +334,7 @@ def classify(mon_line, prog):
 def run_case(ctx, exe, prog, idx):
     d = ctx.tmp / f"case{idx}"
     shutil.rmtree(d, ignore_errors=True); d.mkdir()
-    rc, out, err = ctx.run(exe, [str(d)], text=prog, timeout=120, env={"ASAN_OPTIONS": "detect_leaks=0:abort_on_error=0:exitcode=99"})
+    rc, out, err = ctx.run(exe, [str(d)], text=prog, timeout=30, env={"ASAN_OPTIONS": "detect_leaks=0:abort_on_error=0:exitcode=99"})
     shutil.rmtree(d, ignore_errors=True)
     return rc, out, err
 
@@ -512,6 +519,11 @@ def run(ctx):
         ctx.notes["search"] = f"monitors alone over {m} more programs (bias {bias}): " + \
             ("found a failing input" if ctx.violations else "no failing input")
     ctx.notes["noted_leads"] = [
+        "UV_INHERIT_STREAM of a listening handle: uv__process_child_init calls uv__nonblock_fcntl(fd, 0) on the child's copy, "
+        "which clears O_NONBLOCK on the open file description shared with the parent's handle; a later accept() EMFILE makes "
+        "uv__emfile_trick's `do uv__accept() while (err >= 0)` loop block for ever on the empty backlog (parent loop hangs). "
+        "Program: loop_init; pipe_init 0; bind h0 ok; listen h0; spawn ok s0 i -; run; pipe_init 0; connect h2 h0; "
+        "fail accept4 1 24; run. Not a descriptor-hygiene issue; not generated.",
         "uv_listen called again on a server that still holds an un-accepted connection (connection_cb did not uv_accept): "
         "POLLIN is re-armed (tcp.c:447 / pipe.c:171), next uv__server_io asserts accepted_fd == -1 (stream.c:515) in assert "
         "builds and overwrites accepted_fd in NDEBUG builds, leaking the held descriptor. Program: loop_init; tcp_init unspec; "
